@@ -85,7 +85,13 @@ pub(super) fn translate_operator(
                 let ident = ident.as_ref().unwrap();
 
                 // lookup args
-                let arg = args.get(ident.name.as_str()).unwrap().clone();
+                // (an RQ from JSON may carry fewer arguments than the implementation has parameters)
+                let arg = args.get(ident.name.as_str()).cloned().ok_or_else(|| {
+                    Error::new_simple(format!(
+                        "operator {name} is missing its argument `{}`",
+                        ident.name
+                    ))
+                })?;
 
                 // binding strength
                 let required_strength = format
@@ -130,7 +136,8 @@ fn find_operator_impl(
     operator_name: &str,
     dialect: Dialect,
 ) -> Option<(&pl::Func, Option<i32>, bool, Option<String>)> {
-    let operator_name = operator_name.strip_prefix("std.").unwrap();
+    // (an operator outside `std.` has no implementation: reported by the caller)
+    let operator_name = operator_name.strip_prefix("std.")?;
     let operator_ident = pl::Ident::from_path(
         operator_name
             .split('.')
